@@ -114,18 +114,26 @@ def job_exec(args):
         ref = driver.in_child(driver._oracle_cli, (plan0, argv, npulses))
         runs = [('fork', ref)]
         scratch = spec['scratch']
-        for side, hs in zip(sides, hashseeds):
-            runs.append(('exec hashseed=%d hash=%s' % (hs, side['hash']['mode']),
+        # interpreter flags are part of how a process is started: -O strips
+        # asserts, -OO also docstrings, -X utf8 changes the default encoding
+        flagsets = [(), ('-O',), ('-OO', '-X', 'utf8')]
+        for i, (side, hs) in enumerate(zip(sides, hashseeds)):
+            fl = flagsets[i % 3]
+            runs.append(('exec hashseed=%d hash=%s flags=%s' % (hs, side['hash']['mode'], ' '.join(fl) or '-'),
                          X.exec_sim(REPO, argv, side, hs, rng, scratch, npulses,
-                                    disk={'opt.txt': 'STALE\n' * 200})))
+                                    disk={'opt.txt': 'STALE\n' * 200}, pyflags=fl)))
         if spec.get('real'):
             for tty in (False, True):
-                r = X.exec_real(REPO, argv, rng.randrange(1, 4294967295), rng, scratch, tty=tty)
+                r = X.exec_real(REPO, argv, rng.randrange(1, 4294967295), rng, scratch, tty=tty, optimize=tty)
                 if ref['outcome'] == 'rc:23' and r['outcome'] == 'ok':
                     r['outcome'] = 'rc:23'      # __main__ ignores main()'s return value
                 runs.append(('real tty' if tty else 'real', r))
         viol = []
         for name, r in runs[1:]:
+            if ref['outcome'] == 'raise:AssertionError' and ('-O' in name or name == 'real tty'):
+                # a failed precondition assert: what an optimised interpreter
+                # does instead is not promised by anyone
+                continue
             if r['outcome'] != ref['outcome']:
                 viol.append(dict(clause='H5', observable='outcome', detail='%s: %s vs fork %s' % (name, r['outcome'], ref['outcome'])))
                 continue
@@ -227,7 +235,7 @@ class Agg:
 # ----------------------------------------------------------------- replay
 
 def load_known():
-    p = os.path.join(VERIF, 'known_findings.json')
+    p = os.environ.get('VERIF_KNOWN_FILE') or os.path.join(VERIF, 'known_findings.json')
     try:
         return json.load(open(p))
     except Exception:
@@ -239,12 +247,20 @@ def plan_text(plan):
 
 
 def match_known(known, clause, observable, plan):
+    """A `known` entry names one specific failing signature:
+      clauses      optional list of clause labels (H1..H7)
+      observables  optional list of observable-class prefixes (e.g. 'num.far', 'sweep.step')
+      requires     substrings that must all occur in the minimal plan (model options, op names)
+    Anything not matched by an entry is still reported as a violation."""
     from sim.shrink import obs_class
     txt = plan_text(plan)
+    oc = obs_class(observable)
     for k in known.get('known', []):
-        if k.get('clause') and k['clause'] != clause:
+        cl = k.get('clauses') or ([k['clause']] if k.get('clause') else [])
+        if cl and clause not in cl:
             continue
-        if k.get('observable') and obs_class(k['observable']) != obs_class(observable):
+        ob = k.get('observables') or ([k['observable']] if k.get('observable') else [])
+        if ob and not any(oc.startswith(obs_class(o)) for o in ob):
             continue
         if all(s in txt for s in k.get('requires', [])):
             return k
